@@ -91,3 +91,13 @@ func init() {
 		"E2 replay stage registered for C16 (node level, crash instants sampled): hosts of a cluster that snapshots every 8-25 entries, streams / sends snapshots to lagging replicas, compacts and shrinks, lose power at step-worker points and arbitrary moments; when a host comes back the real start-up cleanup runs on the reopened log store and the property's directory oracle is applied (only the recorded snapshot remains, complete and loadable; no temporary, flagged or unrecorded directory), then the replica must start and converge to the replay of the committed log",
 	}, Stage{Engine: "clusterrun", Mode: "replay", Race: true, BatchesQ: 8, BatchesT: 16, Par: 8, TimeoutQ: 900, TimeoutT: 5400})
 }
+
+func init() {
+	members := Stage{Engine: "clusterrun", Mode: "members", Race: true, BatchesQ: 8, BatchesT: 16, Par: 8, TimeoutQ: 900, TimeoutT: 5400}
+	addStages("C07", "exploration", []string{
+		"E2 members stage (node level): concurrent valid and invalid membership requests through several hosts of real NodeHosts while leaders are isolated / transferred; the committed log is read back through QueryRaftLog and its config change entries are judged by a reference of the stated rules; the membership every running replica reports and every definite request outcome must agree; entries the statement does not decide adopt the requester's outcome",
+	}, members)
+	addStages("C03", "exploration", []string{
+		"E2 members stage registered for C03: LeaderUpdated events of all hosts during membership changes, leader isolation and transfer ((shard, term) -> single leader)",
+	}, members)
+}
